@@ -33,8 +33,10 @@ import (
 	"github.com/elastos/Elastos.ELA/core/types/outputpayload"
 	"github.com/elastos/Elastos.ELA/core/types/payload"
 	"github.com/elastos/Elastos.ELA/crypto"
+	"github.com/elastos/Elastos.ELA/core/checkpoint"
 	"github.com/elastos/Elastos.ELA/database"
 	"github.com/elastos/Elastos.ELA/dpos/state"
+	"github.com/elastos/Elastos.ELA/mempool"
 )
 
 func atoi(s string) int {
@@ -141,6 +143,7 @@ type prog struct {
 }
 
 type wtx struct {
+	nonce  int
 	pver   int
 	ph, oh []int
 	sg     []int
@@ -234,7 +237,11 @@ func (w *wtx) build() (*transaction2.WithdrawFromSideChainTransaction, map[*comm
 	for _, p := range w.progs {
 		programs = append(programs, &program.Program{Code: p.code(), Parameter: []byte{1}})
 	}
-	tx := functions.CreateTransaction(common2.TxVersion09, common2.WithdrawFromSideChain, byte(w.pver), pl, nil, inputs, outputs, 0, programs)
+	var attrs []*common2.Attribute
+	if w.nonce != 0 {
+		attrs = []*common2.Attribute{{Usage: common2.Nonce, Data: []byte(strconv.Itoa(w.nonce))}}
+	}
+	tx := functions.CreateTransaction(common2.TxVersion09, common2.WithdrawFromSideChain, byte(w.pver), pl, attrs, inputs, outputs, 0, programs)
 	return tx.(*transaction2.WithdrawFromSideChainTransaction), refs
 }
 
@@ -326,6 +333,8 @@ func exec(t []string) string {
 		return "err " + errName(msg)
 	case "wflow":
 		return execFlow(t)
+	case "mp":
+		return execPool(t)
 	case "pay":
 		w := parseTx(t)
 		tx, _ := w.build()
@@ -511,6 +520,43 @@ func execFlow(t []string) string {
 
 func ptr(h common.Uint256) *common.Uint256 { return &h }
 
+// ---------------------------------------------------------------- the mempool slot for side-chain hashes
+
+type emptyTxStore struct{}
+
+func (emptyTxStore) GetTransaction(id common.Uint256) (interfaces.Transaction, uint32, error) {
+	return nil, 0, fmt.Errorf("not found")
+}
+
+var poolHeld []*wtx
+
+// execPool submits the withdrawals one after the other to the conflict manager of a real TxPool
+// (VerifyTx, then AppendTx when accepted — what appendToTxPool does after the chain checks) and then asks
+// TxPool.IsDuplicateSidechainTx for every hash.
+func execPool(t []string) string {
+	blockchain.DefaultLedger = &blockchain.Ledger{Blockchain: &blockchain.BlockChain{
+		UTXOCache: blockchain.NewUTXOCache(emptyTxStore{}, &config.DefaultParams)}}
+	pool := mempool.NewTxPool(&config.DefaultParams, checkpoint.NewManager(&config.DefaultParams))
+	poolHeld = nil
+	var acc []string
+	for i, spec := range t[1:] {
+		w := flowTx(spec)
+		w.refs = nil // no inputs: the input slot has nothing to say
+		w.nonce = i + 1
+		tx, _ := w.build()
+		if err := pool.VerifyTx(tx); err != nil {
+			acc = append(acc, "0")
+			continue
+		}
+		if err := pool.AppendTx(tx); err != nil {
+			panic("harness: AppendTx after VerifyTx: " + err.Error())
+		}
+		acc = append(acc, "1")
+		poolHeld = append(poolHeld, w)
+	}
+	return fmt.Sprintf("acc=%s dup=%s", strings.Join(acc, ","), setStr(func(x int) bool { return pool.IsDuplicateSidechainTx(hashOf(x)) }))
+}
+
 // ---------------------------------------------------------------- oracle
 
 func recorded(w *wtx) []int {
@@ -536,10 +582,29 @@ func hasDup(xs []int) bool {
 
 func oracle(t []string, out string) *hx.Violation {
 	bad := func(kind, detail string) *hx.Violation { return &hx.Violation{Kind: kind, Detail: detail} }
-	if out != "ok" && t[0] != "wflow" {
+	if out != "ok" && t[0] != "wflow" && t[0] != "mp" {
 		return nil
 	}
 	switch t[0] {
+	case "mp":
+		seen := map[int]int{}
+		for i, w := range poolHeld {
+			for _, x := range recorded(w) {
+				if j, ok := seen[x]; ok && j != i {
+					return bad("withdraw-pool-reuse", fmt.Sprintf("two withdrawals held by the mempool both record side-chain hash %d", x))
+				}
+				seen[x] = i
+			}
+		}
+		got := map[string]bool{}
+		for _, x := range split(fieldOut(out, "dup"), ",") {
+			got[x] = true
+		}
+		for x := range seen {
+			if !got[strconv.Itoa(x)] {
+				return bad("withdraw-pool-reuse", fmt.Sprintf("side-chain hash %d of a held withdrawal is not reported by IsDuplicateSidechainTx", x))
+			}
+		}
 	case "wflow":
 		for _, name := range []string{"dup", "v1", "v0"} {
 			got := map[string]bool{}
